@@ -303,6 +303,9 @@ func (d *dialResolver) LookupIPAddr(ctx context.Context, host string) ([]net.IPA
 	if i >= len(sc) {
 		i = len(sc) - 1
 	}
+	if len(sc[i]) == 1 && sc[i][0].Equal(net.IPv4zero) {
+		return nil, errors.New("resolver fault (scripted)") // this call of the resolver fails
+	}
 	out := []net.IPAddr{}
 	for _, ip := range sc[i] {
 		out = append(out, net.IPAddr{IP: ip})
@@ -363,7 +366,7 @@ func c19DNSDial(c *mon.Ctx, r *gen.Rand) {
 		opsPer := hr.Range(2, 6)
 		shapes := make([]string, nHosts)
 		for i := range shapes {
-			shapes[i] = gen.Pick(hr, []string{"live", "dead-then-live", "dead-then-live", "dead+live", "always-dead", "live-then-dead-then-live"})
+			shapes[i] = gen.Pick(hr, []string{"live", "dead-then-live", "dead-then-live", "dead+live", "always-dead", "live-then-dead-then-live", "dead-then-resolver-error", "dead-then-resolver-error-then-live", "resolver-error-then-live"})
 		}
 		c.Case("dns-dial", map[string]any{"goroutines": k, "hosts": shapes, "dials_per_goroutine": opsPer}, func() {
 			res := &dialResolver{calls: map[string]int{}, script: map[string][][]net.IP{}, answered: map[string]map[string]bool{}}
@@ -408,6 +411,13 @@ func c19DNSDial(c *mon.Ctx, r *gen.Rand) {
 					res.script[host] = [][]net.IP{{dead}}
 				case "live-then-dead-then-live":
 					res.script[host] = [][]net.IP{{live}, {dead}, {live}}
+				case "dead-then-resolver-error":
+					// the cached address refuses connections, and the lookup made to replace the entry fails
+					res.script[host] = [][]net.IP{{dead}, {net.IPv4zero}}
+				case "dead-then-resolver-error-then-live":
+					res.script[host] = [][]net.IP{{dead}, {net.IPv4zero}, {live}}
+				case "resolver-error-then-live":
+					res.script[host] = [][]net.IP{{net.IPv4zero}, {live}}
 				}
 			}
 			cache := fclient.NewDNSCache(nHosts+1, 30*time.Second, []string{"127.0.0.0/8"}, nil)
@@ -430,7 +440,15 @@ func c19DNSDial(c *mon.Ctx, r *gen.Rand) {
 					for _, hi := range picks[g] {
 						host := fmt.Sprintf("dial%d.example", hi)
 						ctx, cancel := context.WithTimeout(context.Background(), 10*time.Second)
-						conn, err := cache.DialContext(ctx, "tcp", net.JoinHostPort(host, ports[host]))
+						var conn net.Conn
+						var err error
+						if site, msg, pan := mon.Guard(func() { conn, err = cache.DialContext(ctx, "tcp", net.JoinHostPort(host, ports[host])) }); pan {
+							cancel()
+							fmu.Lock()
+							failures = append(failures, fmt.Sprintf("PANIC a dial of %s through the cache panics (%s): %s", host, site, msg))
+							fmu.Unlock()
+							continue
+						}
 						cancel()
 						if err != nil {
 							refused.Add(1)
@@ -468,6 +486,10 @@ func c19DNSDial(c *mon.Ctx, r *gen.Rand) {
 			c.CountN("dns_dials_failed", refused.Load())
 			c.Nontrivial(fmt.Sprintf("dial|%d|%v|%v", k, shapes, picks))
 			for _, f := range failures {
+				if strings.HasPrefix(f, "PANIC") {
+					c.Failf("dns:dial-panics", "%s", f)
+					continue
+				}
 				c.Failf("dns:dial-other-hosts-address", "%s", f)
 			}
 			if n := cache.VerifLen(); n > nHosts+1 {
